@@ -368,8 +368,9 @@ def check_split_run(ctx):
                 continue
             # constraints known in this case: ind < n (loop test) plus the linear atoms
             cons = [(coef, const_, "<")]
+            defs = K.path_defs(p, cut, exclude=(ind, n_))
             for t, pol in case:
-                lc = K.linear_cmp(t)
+                lc = K.linear_cmp(K.expand(t, defs))
                 if lc is not None and set(lc[0]) <= {ind, n_}:
                     cons.append(lc if pol else K.negate_linear(lc))
             # claim: ind == n - 1.  Refute `ind <= n - 2`, i.e. ind - n + 2 <= 0.
